@@ -528,6 +528,7 @@ func execC08(c *Case, sc *Script, o *Obs) {
 		if par {
 			mode = "parallel"
 		}
+		unboundedSig := "C08:demand-unbounded:parallel:head-of-line"
 		if x.Drop {
 			if h.nProbe > 0 {
 				o.add(name, "C08:eager-build:closure-ran", fmt.Sprintf("%d closure evaluations while only building the pipeline", h.nProbe))
@@ -547,7 +548,6 @@ func execC08(c *Case, sc *Script, o *Obs) {
 			o.add(name, "C08:deadlock:"+mode, fmt.Sprintf("%+v", res.Leftover))
 			return
 		}
-		unboundedSig := "C08:demand-unbounded:parallel:head-of-line"
 		if !res.RootDone && !strings.HasPrefix(res.End, "aborted:") {
 			if par && !x.Fair {
 				o.add(name, unboundedSig, "evaluation did not finish within the yield budget: "+res.End)
@@ -567,7 +567,7 @@ func execC08(c *Case, sc *Script, o *Obs) {
 			bound = int64(x.Need) + parWindow
 		}
 		mergeSig := "C08:demand-unbounded:merge:producers-keep-iterating"
-		if maxP > bound && x.Merge {
+		if maxP > bound && x.Merge && !(par && !x.Fair) {
 			o.add(name, mergeSig, fmt.Sprintf("closure evaluated for source element %d although the consumer behind merge was decided by element %d (bound %d): the channel producers of merge keep iterating after the consumer stopped", maxP, x.Need, bound))
 		} else if maxP > bound {
 			d := fmt.Sprintf("closure evaluated for source element %d; decisive element %d, allowed read-ahead up to %d (mode %s, W=%d)", maxP, x.Need, bound, mode, w)
@@ -592,7 +592,9 @@ func execC08(c *Case, sc *Script, o *Obs) {
 				// parallel execution (a stalled consumer makes its elements look slow)
 				b2 = int64(x.Need2) + parWindow + 4*w
 			}
-			if max2 > b2 && x.Merge {
+			if max2 > b2 && par && !x.Fair {
+				o.add(name, unboundedSig, fmt.Sprintf("closure of the second operand evaluated for its element %d; the consumer needs at most its element %d: its parallel workers ran ahead", max2, x.Need2))
+			} else if max2 > b2 && x.Merge {
 				o.add(name, mergeSig, fmt.Sprintf("closure of the second operand of merge evaluated for its element %d; the consumer needs at most its element %d", max2, x.Need2))
 			} else if max2 > b2 {
 				o.add(name, "C08:demand:second-operand:"+x.Term, fmt.Sprintf("closure of the second operand evaluated for its element %d; the consumer needs at most its element %d (allowed up to %d)", max2, x.Need2, b2))
